@@ -61,6 +61,9 @@ def run(F, rep, tier):
     # is a dependency edge (the C11 instances)
     import c11
     c11.dependency_visit(F, rep)
+    # .. and every edge is followed when the globals are ordered: `x :: x + 1` reads x before it has a value unless the edge to
+    # itself is followed and reported as a cycle
+    c11.cycle(F, rep)
     # the types the checker works with for library functions are the ones their Lua definitions have
     import c18
     c18.library_typing(F, rep)
